@@ -163,22 +163,22 @@ macro_rules! roundtrip_harness {
     };
 }
 roundtrip_harness!(c41_b_roundtrip_sync, MessageType::Sync);
-roundtrip_harness!(c41_tb_roundtrip_delay_req, MessageType::DelayReq);
-roundtrip_harness!(c41_tb_roundtrip_pdelay_req, MessageType::PDelayReq);
-roundtrip_harness!(c41_tb_roundtrip_pdelay_resp, MessageType::PDelayResp);
-roundtrip_harness!(c41_tb_roundtrip_follow_up, MessageType::FollowUp);
-roundtrip_harness!(c41_tb_roundtrip_delay_resp, MessageType::DelayResp);
-roundtrip_harness!(c41_tb_roundtrip_pdelay_resp_fup, MessageType::PDelayRespFollowUp);
-roundtrip_harness!(c41_tb_roundtrip_announce, MessageType::Announce);
-roundtrip_harness!(c41_tb_roundtrip_signaling, MessageType::Signaling);
-roundtrip_harness!(c41_tb_roundtrip_management, MessageType::Management);
+roundtrip_harness!(c41_b_roundtrip_delay_req, MessageType::DelayReq);
+roundtrip_harness!(c41_b_roundtrip_pdelay_req, MessageType::PDelayReq);
+roundtrip_harness!(c41_b_roundtrip_pdelay_resp, MessageType::PDelayResp);
+roundtrip_harness!(c41_b_roundtrip_follow_up, MessageType::FollowUp);
+roundtrip_harness!(c41_b_roundtrip_delay_resp, MessageType::DelayResp);
+roundtrip_harness!(c41_b_roundtrip_pdelay_resp_fup, MessageType::PDelayRespFollowUp);
+roundtrip_harness!(c41_b_roundtrip_announce, MessageType::Announce);
+roundtrip_harness!(c41_b_roundtrip_signaling, MessageType::Signaling);
+roundtrip_harness!(c41_b_roundtrip_management, MessageType::Management);
 
 /// m -> bytes -> m with a suffix produced by the library's own TlvSetBuilder (the way
 /// statime-csptp builds every message): one or two TLVs with even-length values <= 4 bytes.
 /// STATEMENT: whatever the library can serialise parses back to an equal message.
 #[kani::proof]
 #[kani::unwind(20)]
-fn c41_tb_roundtrip_built_suffix() {
+fn c41_b_roundtrip_built_suffix() {
     let header = any_header();
     let body = any_body(MessageType::Sync);
     let v1: [u8; 4] = kani::any();
